@@ -328,7 +328,10 @@ class Check:
         cov["checker_cmd"] = "cd /verif/coq && coq_makefile -f _CoqProject -o Makefile && make -k -j16 Props/Properties_%s.vo  (Coq 8.16.1, full .vo build) ; coqc Props/Properties_%s.v for Print Assumptions" % (self.pid, self.pid)
         cov["theorems"] = r["theorems"]
         tb = ["Coq 8.16.1 kernel (coqc, vm_compute; no native_compute)"]
-        tb += ["axiom (standard library): " + a for a in r["axioms"]]
+        prim = {"abs", "add", "div", "eqb", "float", "leb", "ltb", "mul", "opp", "sqrt", "sub", "compare", "classify", "of_uint63", "normfr_mantissa",
+                "frshiftexp", "ldshiftexp", "next_up", "next_down", "int", "lsl", "lsr", "land", "lor", "lxor", "addc", "subc", "mulc", "diveucl", "addmuldiv",
+                "PrimFloat.float", "Uint63.int"}
+        tb += [("primitive of Coq's native binary64/int63 (kernel, not an axiom): " if a in prim else "axiom (standard library): ") + a for a in r["axioms"]]
         cov["trusted_base"] = tb
         cov["axioms_per_theorem"] = r["per_theorem"]
         if bad:
